@@ -120,9 +120,12 @@ package handlers
 //@   property C17
 //@   replay handlers_security_chain@internal/app/handlers : secCount
 //@   requires r != nil && r.URL != nil && !ghost(w).started && ghost(w).hdr != nil
+//@   requires s.securityChain != nil ==> (forall k int :: 0 <= k && k < len(s.securityChain.validators) ==> s.securityChain.validators[k] != nil)
 //@   modifies *
 //@   ensures secCount == old(secCount) || secCount == old(secCount) + 1
 //@   ensures secCount == old(secCount) + 1 ==> lastSecClientID == hostOfAddr(old(r.RemoteAddr))
+// a request that any validator of the chain denied is not served: the next handler is reached only with no denial
+//@   at call ServeHTTP 1 assert valDenials == old(valDenials)
 //@   ensures secCount == old(secCount) + 1 && (lastSecErr != nil || !lastSecAllowed) ==> served == old(served) && ghost(w).started && ghost(w).status >= 400
 //@   ensures secCount == old(secCount) + 1 && lastSecErr == nil && !lastSecAllowed && lastSecRetryAfter > 0 ==> ghost(w).status == 429
 //@   ensures secCount == old(secCount) + 1 && lastSecErr == nil && !lastSecAllowed && lastSecRetryAfter <= 0 && hasPrefix(lastSecReason, "Request body too large") ==> ghost(w).status == 413
